@@ -211,6 +211,18 @@ func runC03(ctx *core.Ctx, pool *par.Pool) {
 		total.States += st.States
 		total.Transitions += st.Transitions
 		ctx.Set("wide_depth_"+cfg.Name, st.Depth)
+		// the same alphabet from a file whose 14 pages all have overwrite
+		// mappings: a checkpoint followed by writes to the same pages puts two
+		// writes per page into one writer batch within a few steps
+		sd := 5
+		if !ctx.Quick() {
+			sd = 7
+		}
+		st = xstate.BFS(ctx, pool, xstate.Spec{Cfg: cfg, Seed: seedWide.Ops, Alphabet: c03WideAlphabet(), MaxDepth: sd})
+		total.States += st.States
+		total.Transitions += st.Transitions
+		ctx.Set("wide_seeded_depth_"+cfg.Name, st.Depth)
+		ctx.Set("wide_seeded_states_"+cfg.Name, st.States)
 		if ctx.Quick() {
 			break
 		}
